@@ -113,11 +113,13 @@ const (
 	stIBlock   // word 2 replaced by an empty inline-block 25px x 15px
 	stIBlockTx // word 2 replaced by an inline-block of width 25px containing "xy"
 	stBigFont  // span, font-size: 20px around words 2-3
+	stPadAsym  // span, padding: 1px 5px 6px (bottom larger than top: must not change the line either)
+	stVertAll  // span, vertical margins, borders and paddings that differ between top and bottom, nothing horizontal
 	nStruct
 )
 
 var structName = [nStruct]string{"none", "span", "span-margin", "span-padding", "span-border", "span-margin-left",
-	"span-margin-right", "span-mbp", "nested-spans", "inline-block", "inline-block-text", "big-font"}
+	"span-margin-right", "span-mbp", "nested-spans", "inline-block", "inline-block-text", "big-font", "span-padding-bottom-heavy", "span-vertical-mbp"}
 
 type row struct {
 	ws        string // normal nowrap pre pre-wrap pre-line
@@ -167,6 +169,8 @@ var (
 	spOuter   = spanSpec{css: "padding:0 2px", left: 2, right: 2}
 	spInner   = spanSpec{css: "margin:0 5px", left: 5, right: 5}
 	spBig     = spanSpec{css: "font-size:20px", fs: 20}
+	spPadAsym = spanSpec{css: "padding:1px 5px 6px", left: 5, right: 5}
+	spVertAll = spanSpec{css: "margin:4px 0 9px;border-style:solid;border-width:4px 0 1px;padding:1px 0 7px"}
 )
 
 const (
@@ -224,6 +228,10 @@ func content(p para, st int) []elem {
 		outer, inner = &spOuter, &spInner
 	case stBigFont:
 		outer = &spBig
+	case stPadAsym:
+		outer = &spPadAsym
+	case stVertAll:
+		outer = &spVertAll
 	}
 	for i := 0; i < n; i++ {
 		if i > 0 {
